@@ -14,4 +14,7 @@ def build(reg):
     specs += ovlread.add_ovlread(reg)  # from the kernel to node[key] / in / get
     specs += [x for x in ovlguards.add_ovlguards(reg) if 'C01' in x.props]  # dataset nodes: read from the resolved container, write only into the newest
     specs += findfiles.add_findfiles(reg)  # reopening by name sees every container of the chain
-    return {"verify": specs, "lemmas": [("visit-in-listing-order", ovlgroup.lemma_listing_order)], "trusted": [overlay.T1_READ, overlay.T1_WRITE, overlay.T_NUMPY] + findfiles.T_FIND + ovlread.T_READ + ovlread.T_WALK + ovlguards.T_GUARDS + ovlgroup.T_VISIT + h5copy.T_COPY, "assumptions": ["iteration order of the result dict (alphabetical) is not modelled"]}
+    from . import oneliners
+
+    specs = specs + oneliners.add_oneliners(reg, props=("C01",))  # one- and two-line delegations, verified against what other contracts bind them to
+    return {"verify": specs, "lemmas": [("visit-in-listing-order", ovlgroup.lemma_listing_order)], "trusted": oneliners.T_ONE + [overlay.T1_READ, overlay.T1_WRITE, overlay.T_NUMPY] + findfiles.T_FIND + ovlread.T_READ + ovlread.T_WALK + ovlguards.T_GUARDS + ovlgroup.T_VISIT + h5copy.T_COPY, "assumptions": ["iteration order of the result dict (alphabetical) is not modelled"]}
